@@ -134,11 +134,42 @@ def _examples():
         shutil.rmtree(d, ignore_errors=True)
 
 
+def _determinism():
+    """Two abstract evaluations of the same operation must assign identical value numbers and tokens (regression guard: a
+    temporary AST node per `x += y` once made site ids depend on recycled object addresses)."""
+    import gc
+
+    from .ai.world import Box
+    from .frontend import Program
+    from .rules.harness import run_op
+
+    prints = []
+    for k in range(2):
+        prog = Program()
+        roles = prog.roles()[-1]
+
+        def setup(w):
+            w.I.number_locals = True
+
+        junk = [object() for _ in range(1000 * k)]  # perturb the allocator between the two evaluations
+        oc = run_op(prog, roles, "rate", ranks="list-of-int", tau="any", limit_sigma="any", box=Box(ranges=True), setup=setup)
+        sig = []
+        for ev in oc.I.events:
+            if ev.kind == "write" and ev.data.get("origin") == "input:player":
+                sig.append((ev.data["field"], getattr(ev.node, "lineno", 0), repr(getattr(ev.data.get("val"), "sym", None))[:2000]))
+        prints.append((len(oc.I._site_ids), tuple(sig)))
+        del junk
+        gc.collect()
+    yield "two evaluations assign identical value numbers (determinism)", prints[0] == prints[1] and prints[0][0] > 10, f"site counts {prints[0][0]} vs {prints[1][0]}"
+
+
 def main() -> int:
     failures = 0
     ran = 0
     try:
-        for name, ok, msg in _examples():
+        import itertools
+
+        for name, ok, msg in itertools.chain(_examples(), _determinism()):
             ran += 1
             if not ok:
                 failures += 1
@@ -150,4 +181,4 @@ def main() -> int:
         print(f"SELFCHECK-FAIL exception {type(e).__name__}: {e}")
         return 2
     print(f"selfcheck: {ran} embedded examples, {failures} failures")
-    return 0 if failures == 0 and ran >= 7 else 2
+    return 0 if failures == 0 and ran >= 8 else 2
